@@ -24,6 +24,7 @@ import (
 	"math"
 	"net/http"
 	"runtime"
+	"sort"
 	"strconv"
 	"strings"
 	"time"
@@ -722,13 +723,20 @@ func (u *connectStreamingUnmarshaler) Unmarshal(message any) *Error {
 	if err := json.Unmarshal(env.Data.Bytes(), &end); err != nil {
 		return errorf(CodeInternal, "unmarshal end stream message: %w", err)
 	}
-	for name, value := range end.Trailer {
-		// Peers may send metadata keys in any case: make lookups behave like
-		// HTTP headers.
-		if canonical := http.CanonicalHeaderKey(name); canonical != name {
-			delete(end.Trailer, name)
-			end.Trailer[canonical] = append(end.Trailer[canonical], value...)
+	// Peers may send metadata keys in any case: make lookups behave like
+	// HTTP headers. Several spellings of one key are merged in the order of
+	// their names, not in the order in which the map happens to yield them.
+	var nonCanonical []string
+	for name := range end.Trailer {
+		if http.CanonicalHeaderKey(name) != name {
+			nonCanonical = append(nonCanonical, name)
 		}
+	}
+	sort.Strings(nonCanonical)
+	for _, name := range nonCanonical {
+		canonical := http.CanonicalHeaderKey(name)
+		end.Trailer[canonical] = append(end.Trailer[canonical], end.Trailer[name]...)
+		delete(end.Trailer, name)
 	}
 	u.trailer = end.Trailer
 	u.endStreamErr = (*Error)(end.Error)
